@@ -112,6 +112,11 @@ func runC11(c *Ctx) {
 			add("near-trigger", []byte("# "+n+"\n\n*"+n+"* ["+n+"](/u)\n"))
 		}
 	})
+	if c.Quick() {
+		gfmModelCases(c, items, 5000)
+	} else {
+		gfmModelCases(c, items, 50000)
+	}
 	c11Pairwise(c, items)
 	lawSweepAll(c, cfgs, items, "extension-conservativity", func(d []byte) bool { return true }, func(m mdT, all []mdT, d []byte) (string, bool) {
 		if m.cf.Ext != "core" {
